@@ -29,9 +29,9 @@ func harness_C11_buckets() {
 		if nondetBool(fmt.Sprintf("sleep%d", i)) {
 			time.Sleep(2 * time.Minute)
 		}
-		if held[k] > 0 {
-			continue // would block (Take) / race with the cancelled context
-		}
+		// a key whose single permit is held is tried as well: with the context
+		// already cancelled the attempt must be refused (only if the bucket was
+		// wrongly reaped and re-created does it find a free permit)
 		if err := bs.TakeContext(ctx, k); err == nil {
 			held[k]++
 			if held[k] > 1 {
